@@ -86,4 +86,110 @@ theorem shrink_agrees (alloc : Alloc) (a : Al) (es : Nat) (hes : es ≤ SIZE_T_M
       · cases h
   · simp only [hlim, ↓reduceIte] at h
     cases h
+
+/-- the release loop of `array_list_del_idx` from `i` to `stop`: whatever the slots hold, it ends after `stop - i`
+iterations in the common tail (memmove of the elements behind the range, `length -= count`) -/
+theorem delLoop_agrees (u1 u2 : Int) (fuelP : Nat) (cm : Int) (m1 m2 : Nat → Int) (arr idx count len ap fp : Int) (stop : Nat)
+    (hstop : (stop : Int) < 18446744073709551616) :
+    ∀ (rem i : Nat), i + rem = stop →
+      ∀ (fuel0 it : Nat) (tr : List (String × List Int)), rem < fuel0 →
+        ∃ out pre, Translated.array_list_del_idx.loop1 u1 u2 fuelP cm m1 m2 fuel0 it arr idx count len ap fp tr i stop = .ok out ∧
+          out.ret = 0 ∧ out.arr_length = (len - count) % 18446744073709551616 ∧
+          out.calls = tr ++ pre ++ [("memmove", [ap + idx * 8, ap + (stop : Int) * 8,
+            (((len - stop) % 18446744073709551616) * 8) % 18446744073709551616])] := by
+  intro rem
+  induction rem with
+  | zero =>
+    intro i hi fuel0 it tr hf
+    cases fuel0 with
+    | zero => omega
+    | succ f =>
+      unfold Translated.array_list_del_idx.loop1 Translated.array_list_del_idx.j1
+      rw [if_neg (by omega)]
+      exact ⟨_, [], rfl, rfl, rfl, by simp⟩
+  | succ r ih =>
+    intro i hi fuel0 it tr hf
+    cases fuel0 with
+    | zero => omega
+    | succ f =>
+      unfold Translated.array_list_del_idx.loop1
+      rw [if_pos (by omega)]
+      have hn : ((i : Int) + 1) % 18446744073709551616 = ((i + 1 : Nat) : Int) := by omega
+      simp only [hn]
+      by_cases hz : m1 it ≠ 0
+      · rw [if_pos hz]
+        obtain ⟨out, pre, ho, h1, h2, h3⟩ := ih (i + 1) (by omega) f (it + 1)
+          (tr ++ [("load8", [ap + (i : Int) * 8])] ++ [("load8", [ap + (i : Int) * 8])] ++ [("via_free_fn", [fp, m2 it])]) (by omega)
+        exact ⟨out, [("load8", [ap + (i : Int) * 8]), ("load8", [ap + (i : Int) * 8]), ("via_free_fn", [fp, m2 it])] ++ pre,
+          ho, h1, h2, by rw [h3]; simp⟩
+      · rw [if_neg hz]
+        obtain ⟨out, pre, ho, h1, h2, h3⟩ := ih (i + 1) (by omega) f (it + 1)
+          (tr ++ [("load8", [ap + (i : Int) * 8])]) (by omega)
+        exact ⟨out, [("load8", [ap + (i : Int) * 8])] ++ pre, ho, h1, h2, by rw [h3]; simp⟩
+
+/-- `array_list_del_idx`: the three refusals and, when the range is inside the array, the new length and the memmove -/
+theorem delIdx_agrees (a : Al) (idx count : Nat) (hidx : idx ≤ SIZE_T_MAX) (hcnt : count ≤ SIZE_T_MAX) (hlen : a.length ≤ SIZE_T_MAX)
+    (arr ap fp u1 u2 cm : Int) (fuel : Nat) (hfuel : count < fuel) (m1 m2 : Nat → Int)
+    (r : Res) (h : delIdx a idx count = .ok r) :
+    ∃ out, Translated.array_list_del_idx arr idx count a.length ap fp u1 u2 fuel cm m1 m2 = .ok out ∧
+      out.ret = r.ret ∧ out.arr_length = r.al.length ∧ (r.ret = -1 → out.calls = [] ∧ r.al = a) ∧
+      (r.ret = 0 → ∃ pre, out.calls = pre ++ [("memmove", [ap + (idx : Int) * 8, ap + ((idx + count : Nat) : Int) * 8,
+            ((a.length - (idx + count) : Nat) : Int) * 8])]) := by
+  unfold delIdx at h
+  unfold Translated.array_list_del_idx
+  simp only [SIZE_T_MAX, sizeMax, PTR, sizeofPtr, ckSize_bind, ckSub, Outcome.pure_eq] at h hidx hcnt hlen
+  have hc : count ≤ 18446744073709551615 := hcnt
+  simp only [hc, ↓reduceIte, Outcome.bind_ok] at h
+  split at h
+  · cases h
+    rw [if_pos (by omega)]
+    exact ⟨_, rfl, rfl, rfl, by simp, by simp⟩
+  · rw [if_neg (by omega)]
+    split at h
+    · split at h
+      · rename_i hg
+        cases h
+        rcases hg with hg | hg
+        · rw [if_pos (by omega)]
+          exact ⟨_, rfl, rfl, rfl, by simp, by simp⟩
+        · by_cases h1 : idx ≥ a.length
+          · rw [if_pos (by omega)]
+            exact ⟨_, rfl, rfl, rfl, by simp, by simp⟩
+          · rw [if_neg (by omega), if_pos (by omega)]
+            exact ⟨_, rfl, rfl, rfl, by simp, by simp⟩
+      · rename_i hg
+        rw [if_neg (by omega), if_neg (by omega)]
+        have hs : ((idx : Int) + count) % 18446744073709551616 = ((idx + count : Nat) : Int) := by omega
+        simp only [hs]
+        obtain ⟨out, pre, ho, h1, h2, h3⟩ := delLoop_agrees u1 u2 fuel cm m1 m2 arr idx count a.length ap fp (idx + count) (by omega)
+          count idx rfl fuel 0 [] hfuel
+        -- the model's result on this path
+        cases hrel : releaseLoop a idx (idx + count - idx) with
+        | fault w => rw [hrel] at h; cases h
+        | ok rel =>
+          rw [hrel] at h
+          simp only [Outcome.bind_ok] at h
+          split at h
+          · split at h
+            · rename_i hl1 hl2
+              simp only [Outcome.bind_ok] at h
+              split at h
+              · cases hmm : memmoveSlots a.slots idx (idx + count) (a.length - (idx + count)) "del_idx" with
+                | fault w => rw [hmm] at h; cases h
+                | ok sl =>
+                  rw [hmm] at h
+                  simp only [Outcome.bind_ok] at h
+                  cases h
+                  refine ⟨out, ho, by simp [h1], ?_, by simp, ?_⟩
+                  · simp only [h2]; omega
+                  · intro _
+                    refine ⟨pre, ?_⟩
+                    rw [h3]
+                    simp only [List.nil_append, List.append_cancel_left_eq, List.cons.injEq, and_true, Prod.mk.injEq, true_and]
+                    omega
+              · first | cases h | omega
+            · first | omega | cases h
+          · first | omega | cases h
+    · cases h
+
 end JsonC.TranslatedAl
